@@ -16,6 +16,7 @@ func init() {
 	VerifHarnesses["HarnessNEStep"] = HarnessNEStep
 	VerifHarnesses["HarnessNEDisconnect"] = HarnessNEDisconnect
 	VerifHarnesses["HarnessNEBmc"] = HarnessNEBmc
+	VerifHarnesses["HarnessNEShape"] = HarnessNEShape
 }
 
 const (
@@ -96,14 +97,27 @@ func buildNEConfig() *neConfig {
 	// arbitrary (non-neutral) defaults: the resets must go to the neutral values, not to these
 	c.defOct, c.defSemi, c.defCh = verifrt.I8("cfg.def.octave"), verifrt.I8("cfg.def.semitone"), verifrt.U8("cfg.def.channel")
 	c.defMap = int(verifrt.U8("cfg.def.mapping"))
+	concrete := verifrt.Param("CONCRETE", 0) == 1
+	if concrete {
+		c.defOct, c.defSemi, c.defCh, c.defMap = 0, 0, 1, 0
+	}
 	verifrt.Assume(c.defCh >= 1 && c.defCh <= 16 && c.defMap < c.M)
 	var mappings []config.KeyMapping
 	for m := 0; m < c.M; m++ {
 		keys := map[evdev.EvCode]config.Key{}
 		for k := 0; k < c.K; k++ {
-			c.present[m][k] = verifrt.Bool(verifrt.N("cfg.present", m, k))
-			c.note[m][k] = verifrt.U8(verifrt.N("cfg.note", m, k))
-			c.off[m][k] = verifrt.U8(verifrt.N("cfg.off", m, k))
+			if concrete {
+				// fixed layout for shaped histories: keys 0 and 1 share a pitch, key 2 differs; the second mapping
+				// remaps key 0, drops key 1 and puts key 2 on the shared pitch
+				tblNote := [2][3]uint8{{60, 60, 62}, {64, 0, 60}}
+				tblOff := [2][3]uint8{{0, 0, 1}, {0, 0, 0}}
+				tblHas := [2][3]bool{{true, true, true}, {true, false, true}}
+				c.present[m][k], c.note[m][k], c.off[m][k] = tblHas[m][k%3], tblNote[m][k%3], tblOff[m][k%3]
+			} else {
+				c.present[m][k] = verifrt.Bool(verifrt.N("cfg.present", m, k))
+				c.note[m][k] = verifrt.U8(verifrt.N("cfg.note", m, k))
+				c.off[m][k] = verifrt.U8(verifrt.N("cfg.off", m, k))
+			}
 			verifrt.Assume(c.note[m][k] <= 127 && c.off[m][k] <= 15)
 			if c.present[m][k] {
 				keys[noteCodes[k]] = config.Key{Note: c.note[m][k], ChannelOffset: c.off[m][k]}
@@ -300,6 +314,12 @@ func HarnessNEStep() {
 		(s.atr[aChUp] && s.atr[aChDown]) || (s.atr[aMapUp] && s.atr[aMapDown])
 	verifrt.Assume(!(kind == 1 && press && pairHeld))
 
+	neStep(c, &d, out, sigs, s, wch, wn, sounding, kind, idx, press, code)
+}
+
+// neStep sends one key event through the real processEvent and checks every per-step rule against the ghost
+// pre-state s (which it updates). It returns the receiver-side state of the witness pitch.
+func neStep(c *neConfig, d *Device, out chan midi.Event, sigs chan os.Signal, s *neState, wch, wn uint8, sounding bool, kind uint8, idx int, press bool, code evdev.EvCode) bool {
 	// reference values computed BEFORE the event
 	var resOk bool
 	var resN, resCh uint8
@@ -379,7 +399,15 @@ func HarnessNEStep() {
 			_, tr := d.noteTracker[noteCodes[k]]
 			verifrt.Assert(tr == s.tracked[k], "C14: the completing press starts no note")
 		}
-		return
+		// ghost: the key is down
+		if kind == 0 {
+			s.held[idx] = press
+		} else if kind == 1 {
+			s.aheld[idx] = press
+		} else {
+			s.oheld = press
+		}
+		return sounding
 	}
 	verifrt.Assert(nsig == 0, "C14: no termination signal unless all sequence keys are down")
 
@@ -542,6 +570,7 @@ func HarnessNEStep() {
 		verifrt.Cover("C01: quiescent state")
 		verifrt.Assert(!sounding, "C01: nothing is sounding when no key is held")
 	}
+	return sounding
 }
 
 func boolToVal(press bool) int32 {
@@ -654,4 +683,64 @@ func HarnessNEBmc() {
 	verifrt.Assert(!sounding, "C01: disconnect releases every note that is still sounding")
 	verifrt.Assert(allWF, "C05: every emitted message is a well-formed 3-byte channel message")
 	verifrt.Cover("NE: end of history")
+}
+
+// readState builds the ghost view from the REAL device state (the held sets are kept by the harness).
+func readState(d *Device, c *neConfig, prev *neState) *neState {
+	s := &neState{held: prev.held, aheld: prev.aheld, oheld: prev.oheld}
+	for k := 0; k < c.K; k++ {
+		v, ok := d.noteTracker[noteCodes[k]]
+		s.tracked[k], s.tnote[k], s.tch[k] = ok, v[0], v[1]
+	}
+	for a := 0; a < nActions; a++ {
+		s.atr[a] = d.actionTracker[actionList[a]]
+	}
+	s.octave, s.semi, s.channel, s.mapping, s.learn = d.octave, d.semitone, d.channel, d.mapping, d.ccLearning
+	return s
+}
+
+// HarnessNEShape: a history from the REAL initial state whose event kinds are concrete per run (SHAPE, base 32:
+// 0..5 toggle note key k, 8..18 toggle action key a) while configuration, collision mode, defaults and the witness
+// stay symbolic. Every step is checked with the same oracle as the inductive step, the ghost pre-state being read
+// from the device. This guards the inductive argument against state that is not part of the harness's invariant
+// (e.g. a flag added by a change): such state starts from its real initial value here.
+func HarnessNEShape() {
+	c := buildNEConfig()
+	out := make(chan midi.Event, 1024)
+	sigs := make(chan os.Signal, 8)
+	d := newTestDevice(c.cfg, out, sigs)
+	wch, wn := verifrt.U8("w.ch"), verifrt.U8("w.note")
+	verifrt.Assume(wch <= 15 && wn <= 127)
+	st0 := d.State()
+	verifrt.Assert(st0.Octave == c.defOct && st0.Semitone == c.defSemi && st0.Channel == c.defCh-1 && d.mapping == c.defMap, "C04: the configured defaults are the initial state")
+	shape := verifrt.Param("SHAPE", 0)
+	n := verifrt.Param("L", 4)
+	ghost := &neState{}
+	sounding := false
+	for i := 0; i < n; i++ {
+		v := shape % 32
+		shape /= 32
+		s := readState(&d, c, ghost)
+		var kind uint8
+		var idx int
+		var press bool
+		var code evdev.EvCode
+		if v < 8 {
+			kind, idx = 0, v
+			verifrt.Assume(idx < c.K)
+			press = !s.held[idx]
+			code = noteCodes[idx]
+		} else {
+			kind, idx = 1, v-8
+			press = !s.aheld[idx]
+			code = actionCodes[idx]
+		}
+		// C04's assumption: no third action while a complete pair is held
+		pairHeld := (s.atr[aOctUp] && s.atr[aOctDown]) || (s.atr[aSemiUp] && s.atr[aSemiDown]) ||
+			(s.atr[aChUp] && s.atr[aChDown]) || (s.atr[aMapUp] && s.atr[aMapDown])
+		verifrt.Assume(!(kind == 1 && press && pairHeld))
+		sounding = neStep(c, &d, out, sigs, s, wch, wn, sounding, kind, idx, press, code)
+		ghost = s
+	}
+	verifrt.Cover("NE: end of shaped history")
 }
